@@ -2,7 +2,7 @@
     The sharp bounds 1.7 OPT, 11/9 OPT + 6/9, 11/9 OPT + 4 are NOT proved (DESIGN section 8): they are
     tested against the verified min_bins oracle; what is proved is the invariant and length <= 2 OPT - 1.
     Statements only; proofs in Proofs/PackingProofs.v and Proofs/OracleSpec.v. *)
-From Prtpy Require Import Base.Prelude Model.Binner Model.Packing Spec.Partition Oracle.Reach Proofs.PackingProofs Proofs.OracleSpec Proofs.FFDRatioProofs.
+From Prtpy Require Import Base.Prelude Model.Binner Model.Packing Spec.Partition Oracle.Reach Proofs.PackingProofs Proofs.OracleSpec Proofs.FFDRatioProofs Proofs.BFDRatioProofs.
 
 (** first-fit: for any two bins, the earlier sum plus the first item of the later bin exceeds the bin size *)
 Theorem C09_ff_anyfit : forall (A : Type) (valueof : A -> Z) (C : Z) (items : list A) (b : bins A),
@@ -72,3 +72,10 @@ Theorem C09_ffd_ratio_32 : forall (A : Type) (valueof : A -> Z) (C : Z) (items :
   first_fit_decreasing valueof true C items = Ok b -> MinBins C (map valueof items) n -> (2 * length b <= 3 * n)%nat.
 Proof. exact @ffd_ratio_32_strong_opt. Qed.
 Print Assumptions C09_ffd_ratio_32.
+
+(** best-fit-decreasing: at most 3/2 OPT bins (proved; the sharp 11/9 OPT + 4 is tested only) *)
+Theorem C09_bfd_ratio_32 : forall (A : Type) (valueof : A -> Z) (C : Z) (items : list A) (b : bins A) (n : nat),
+  items <> [] -> Forall (fun x : A => 0 <= valueof x) items ->
+  best_fit_decreasing valueof true C items = Ok b -> MinBins C (map valueof items) n -> (2 * length b <= 3 * n)%nat.
+Proof. exact @bfd_ratio_32_opt. Qed.
+Print Assumptions C09_bfd_ratio_32.
